@@ -2,6 +2,8 @@
 from contracts import activation as A
 from contracts import core as K
 
+from contracts import formulas as F_DEP
+from contracts import core as K_DEP
 ID = "C14"
 LEVEL = "other"
 TRUSTED = ["oracle: 60+-digit decimal evaluation of the three chain solutions with an independent reader of activation.dat",
@@ -10,7 +12,7 @@ EXPLANATION = ("Deductive: activity() per reaction kind (ordinary capture with b
 
 
 def units(tier):
-    return (A.U_ACTIVITY + [A.U_EPITHERMAL, A.U_ACCUMULATE, A.U_CALC_ACTIVATION, K.L_REGISTRATION]) + [A.U_ENV_INIT] + A.U_SAMPLE_INIT
+    return (A.U_ACTIVITY + [A.U_EPITHERMAL, A.U_ACCUMULATE, A.U_CALC_ACTIVATION, K.L_REGISTRATION]) + [A.U_ENV_INIT] + A.U_SAMPLE_INIT + ([K_DEP.L_ATOM_IDENTITY] + [F_DEP.U_COUNT_ATOMS, F_DEP.U_ATOMS])
 
 
 def runner_tasks(tier):
@@ -19,7 +21,8 @@ def runner_tasks(tier):
             {"module": "c14", "task": "element_sum", "kind": "bounded", "clause": "natural element = abundance-weighted isotope sum"},
             {"module": "stateful", "task": "C14", "name": "stateful", "kind": "bounded", "clause": "re-used environment / sample gives what a fresh one gives; rest times as the caller's numpy vector over several calls"},
             {"module": "c09", "task": "steps", "name": "first-touch steps", "kind": "eval", "arg": {"groups": ["neutron_activation"]}, "clause": "every first touch of the activation data (incl. explicit init first) serves the canonical rows", "timeout": 1500},
-            {"module": "c10", "task": "steps", "name": "private-table steps", "kind": "eval", "arg": {"modules": ["activation"]}, "clause": "activation.init on a private table: same rows, public untouched", "timeout": 1500}]
+            {"module": "c10", "task": "steps", "name": "private-table steps", "kind": "eval", "arg": {"modules": ["activation"]}, "clause": "activation.init on a private table: same rows, public untouched", "timeout": 1500},
+            {"module": "independence", "task": "observations", "name": "independence", "kind": "bounded", "arg": {"tags": ["C14"]}, "clause": "fixed observations give the same value as the first use of the library in a fresh interpreter, in a warmed-up interpreter (twice) and in reverse order, and have their documented value", "timeout": 900}]
 
 
 REPLAY = {"module": "c14", "task": "replay"}
